@@ -85,7 +85,7 @@ def findMapKey (keys : List Bytes) (vals : List GoVal) (name : Bytes) : Option G
 def fieldByName (name : Bytes) (sv : RV) : Option GoVal :=
   if isEmptyValue sv then none else
   match sv.derefOnce with
-  | .val (.map _ _ keys vals) => (findMapKey keys vals name).map toDecimalIfNumber
+  | .val (.map _ _ keys vals) => (findMapKey keys vals name).map numberKindsToDecimal
   | .val (.struct names vals) =>
     match (names.zip vals).find? (fun p => p.1.2 && equalFold p.1.1 name) with
     | some p => some (numberKindsToDecimal p.2)
@@ -282,7 +282,7 @@ def pureFunc (name : String) (ps : List Prm) (val : GoVal) : Option Out :=
     let v := RV.of val
     if isEmptyValue v then okDec Dec.zero else
     match listOf val with
-    | some xs => match sel xs with | some x => .ok (toDecimalIfNumber x.toAny) | none => .err
+    | some xs => match sel xs with | some x => .ok (numberKindsToDecimal x.toAny) | none => .err
     | none => .err
   match name with
   | "Equal" => some equal
@@ -327,7 +327,7 @@ def pureFunc (name : String) (ps : List Prm) (val : GoVal) : Option Out :=
         match listOf val with
         | some xs =>
           if p.isNegative || Dec.cmp p (Dec.ofNat xs.length) != .lt then .err
-          else match xs[p.intPart.toNat]? with | some x => .ok (toDecimalIfNumber x.toAny) | none => .err
+          else match xs[p.intPart.toNat]? with | some x => .ok (numberKindsToDecimal x.toAny) | none => .err
         | none => .err)
   | "Sum" => some (decimalSlice ps val Dec.sumL)
   | "Average" => some (decimalSlice ps val Dec.avgL)
@@ -391,157 +391,17 @@ def isSliceKind (v : GoVal) : Option (List GoVal) :=
   | .array _ xs => some xs
   | _ => none
 
-mutual
-def evalPath (T : Tables) : Nat → PathOp → GoVal → GoVal → Out
-  | 0, _, _, _ => .fuel
-  | fuel+1, .mk _ root isFilter _ ops _, cur, orig =>
-    if root && isFilter then .err else
-    let data := if root then orig else cur
-    match ops with
-    | [] => .ok (numberKindsToDecimal data)
-    | _ => evPathLoop T fuel ops data orig false none
-
-/-- the loop of opPath.Do; `prev` is the previous operation's PropagateNull flag (none for the first op) -/
-def evPathLoop (T : Tables) : Nat → List PathPart → GoVal → GoVal → Bool → Option Bool → Out
-  | 0, _, _, _, _, _ => .fuel
-  | _, [], data, _, _, _ => .ok data
-  | fuel+1, op :: rest, data, orig, priorNil, prev =>
-    let isFunc := match op with | .func .. => true | _ => false
-    let prop := match op with | .ident _ p _ => p | _ => false
-    if (prev.isSome && priorNil) && !(prev.getD false) && !isFunc then .knf else
-    match evalPart T fuel op data orig with
-    | .ok v => evPathLoop T fuel rest v orig (priorNil || isNilVal v) (some prop)
-    | .knf =>
-      if prop then
-        match rest with
-        | [] => .knf       -- the named result `err` still holds ErrKeyNotFound when the loop ends
-        | _ => evPathLoop T fuel rest .nil orig true (some prop)
-      else .knf
-    | .err => .err
-    | o => o
-
-def evalPart (T : Tables) : Nat → PathPart → GoVal → GoVal → Out
-  | 0, _, _, _ => .fuel
-  | fuel+1, .ident name _ _, cur, _ => identDo name cur
-  | fuel+1, .filter lo _, cur, orig =>
-    match asStructOrSlice cur with
-    | none => .err
-    | some (obj, true) =>
-      match evalLogic T fuel lo obj orig with
-      | .ok (.bool _ true) => .ok obj
-      | .ok _ => .ok .nil
-      | o => o
-    | some (lst, false) =>
-      match lst with
-      | .slice _ _ xs => evFilterLoop T fuel lo xs orig []
-      | _ => .err
-  | fuel+1, .func _ name params _, cur, orig =>
-    match evalParams T fuel params cur orig [] with
-    | .inl o => o
-    | .inr ps =>
-      let recv := toDecimalIfNumber (normalizeValue cur)
-      let nm := String.fromUTF8! (ByteArray.mk name.toArray)
-      if !knownFuncs.contains nm then .err else
-      match pureFunc nm ps recv with
-      | some o => o
-      | none =>
-        if nm == "Select" then
-          match firstOfString ps with
-          | none => .err
-          | some q =>
-            match (parse T q).1 with
-            | .op top =>
-              let run (elem : GoVal) : Out := match top with
-                | .path p => evalPath T fuel p elem elem
-                | .logic l => evalLogic T fuel l elem elem
-              match (RV.of recv).derefOnce with
-              | .val (.slice _ _ xs) => evSelectLoop run xs []
-              | .val (.array _ xs) => evSelectLoop run xs []
-              | .val (.map .iface _ _ _) => .unmodelled   -- sort by Value.String() is a no-op: order is the map's
-              | .val (.map _ _ keys vals) =>
-                let sorted := (keys.zip vals).toArray.qsort (fun a b => bytesLt a.1 b.1) |>.toList
-                evSelectLoop run (sorted.map (·.2)) []
-              | _ => .err
-            | .panic => .panic
-            | _ => .err
-        else .unmodelled
-
-def evSelectLoop (run : GoVal → Out) : List GoVal → List GoVal → Out
-  | [], acc => .ok (.slice true (acc.isEmpty) acc)
-  | x :: xs, acc =>
-    match run x with
-    | .ok r => match isSliceKind r with
-      | some ys => evSelectLoop run xs (acc ++ ys)
-      | none => evSelectLoop run xs (acc ++ [r])
-    | .knf => .knf
-    | o => o
-
-def evFilterLoop (T : Tables) : Nat → LogicOp → List GoVal → GoVal → List GoVal → Out
-  | 0, _, _, _, _ => .fuel
-  | _, _, [], _, acc => .ok (.slice true false acc)
-  | fuel+1, lo, x :: xs, orig, acc =>
-    match evalLogic T fuel lo x orig with
-    | .ok (.bool _ b) => evFilterLoop T fuel lo xs orig (if b then acc ++ [x] else acc)
-    | .ok _ => .panic      -- res.(bool) on a non-bool
-    | o => o
-
-def evalParams (T : Tables) : Nat → List Param → GoVal → GoVal → List Prm → Sum Out (List Prm)
-  | 0, _, _, _, _ => .inl .fuel
-  | _, [], _, _, acc => .inr acc
-  | fuel+1, p :: rest, cur, orig, acc =>
-    let spread (res : GoVal) : Sum Out (List Prm) :=
-      match normalizeValue res with
-      | .dec d => evalParams T fuel rest cur orig (acc ++ [.num d])
-      | .str false s => evalParams T fuel rest cur orig (acc ++ [.str s])
-      | .bool false b => evalParams T fuel rest cur orig (acc ++ [.bool b])
-      | .slice true false xs =>
-        let conv : Option (List Prm) := xs.foldl (fun a x => match a, x with
-          | some l, .dec d => some (l ++ [Prm.num d])
-          | some l, .str false s => some (l ++ [Prm.str s])
-          | some l, .bool false b => some (l ++ [Prm.bool b])
-          | _, _ => none) (some [])
-        match conv with
-        | some l => evalParams T fuel rest cur orig (acc ++ l)
-        | none => .inl .err
-      | _ => .inl .err
-    match p with
-    | .num d => evalParams T fuel rest cur orig (acc ++ [.num d])
-    | .str s => evalParams T fuel rest cur orig (acc ++ [.str s])
-    | .bool b => evalParams T fuel rest cur orig (acc ++ [.bool b])
-    | .path pp => match evalPath T fuel pp cur orig with
-      | .ok res => spread res
-      | .knf => .inl .knf
-      | o => .inl o
-    | .logic l => match evalLogic T fuel l cur orig with
-      | .ok res => spread res
-      | .knf => .inl .knf
-      | o => .inl o
-
-def evalLogic (T : Tables) : Nat → LogicOp → GoVal → GoVal → Out
-  | 0, _, _, _ => .fuel
-  | fuel+1, .mk _ _ ty ops _, cur, orig => evLogicLoop T fuel ty ops cur orig
-
-def evLogicLoop (T : Tables) : Nat → Bytes → List LogicPart → GoVal → GoVal → Out
-  | 0, _, _, _, _ => .fuel
-  | _, ty, [], _, _ => if ty == str "And" then okBool true else if ty == str "Or" then okBool false else .err
-  | fuel+1, ty, op :: rest, cur, orig =>
-    let r := match op with
-      | .path p => evalPath T fuel p cur orig
-      | .logic l => evalLogic T fuel l cur orig
-    match r with
-    | .ok (.bool false b) =>
-      if ty == str "And" && !b then okBool false
-      else if ty == str "Or" && b then okBool true
-      else evLogicLoop T fuel ty rest cur orig
-    | .ok _ => okBool false
-    | o => o
-end
-
-def evalTop (T : Tables) (q : Bytes) (data : GoVal) : Out :=
-  match (parse T q).1 with
-  | .op (.path p) => evalPath T (4 * q.length + 64) p data data
-  | .op (.logic l) => evalLogic T (4 * q.length + 64) l data data
-  | .panic => .panic
-  | _ => .err
+/-- helpers.go objectAsMap: a struct (behind any number of pointers) becomes the map of its exported fields -/
+def objectAsMap : GoVal → GoVal
+  | .ptr false v => (match objectAsMap v with
+      | .map kk n ks vs => (match v with
+          | .struct .. => .map kk n ks vs
+          | .ptr false _ => .map kk n ks vs
+          | _ => .ptr false v)
+      | _ => .ptr false v)
+  | .struct names vals =>
+      let kept := (names.zip vals).filter (fun p => p.1.2)
+      .map .str false (kept.map (·.1.1)) (kept.map (·.2))
+  | v => v
 
 end Mp
